@@ -1375,3 +1375,24 @@ def _phantom_text_content(repo, ob, failure):
 
 GENERATORS.insert(0, ("C19.content.every_text_carrier", _phantom_text_content))
 GENERATORS.insert(0, ("C19.content.promoted_for_every", _phantom_text_content))
+
+
+def _axis_at_origin(repo, ob, failure):
+    """an axis given by a length only lies at the origin (start 0; centre 0 for an ellipse), whichever pair spells the other axis"""
+    pairs = [('<rect x="2" x2="8" height="4"/>', '<rect x="2" width="6" height="4"/>'),
+             ('<line x="2" x2="8" height="4"/>', '<line x="2" width="6" height="4"/>'),
+             ('<ellipse cx="5" x2="8" ry="2"/>', '<ellipse cx="5" rx="3" ry="2"/>'),
+             ('<rect y="1" y2="6" width="10"/>', '<rect y="1" height="5" width="10"/>'),
+             ('<ellipse rxy="5 3" dxy="1 2"/>', '<ellipse cxy="0" rxy="5 3" dxy="1 2"/>'),
+             ('<ellipse cx="5" rxy="5 3" dy="2"/>', '<ellipse cxy="5 0" rxy="5 3" dy="2"/>')]
+    for a, b in pairs:
+        ra, rb = run_svgdx(repo, "<svg>%s</svg>" % a, args=("--no-auto-styles",)), run_svgdx(repo, "<svg>%s</svg>" % b, args=("--no-auto-styles",))
+        if ra["rc"] == 0 and rb["rc"] == 0 and ra["out"] != rb["out"]:
+            return {"input": "<svg>%s</svg>" % a, "args": ["--no-auto-styles"], "observed": ra["out"].strip()[-160:], "expected": "the geometry of %s: %s" % (b, rb["out"].strip()[-160:])}
+    return None
+
+
+GENERATORS.insert(0, ("C11.to_bbox.y_at_origin", _axis_at_origin))
+GENERATORS.insert(0, ("C11.to_bbox.x_at_origin", _axis_at_origin))
+GENERATORS.insert(0, ("C11.to_bbox.both_at_origin", _axis_at_origin))
+GENERATORS.insert(0, ("C11.to_bbox.absent_position", _axis_at_origin))
